@@ -87,6 +87,8 @@ def c15_streams(rng, tier, budget):
         st2.obs_all(st2.new(p), C15_OBS)
         st2.obs_all(st2.build(scheme="http", host="h", path=p), C15_OBS)
         st2.obs_all(st2.mod(base, "with_path", enc(p), "F", "F", "F"), C15_OBS)
+        st2.obs_all(st2.mod(base, "with_path", enc("/".join(seq)), "F", "T", "F"), C15_OBS)       # rootless argument
+        st2.obs_all(st2.build(scheme="http", path="/".join(seq)), C15_OBS)                         # no authority: verbatim
         if seq:
             st2.obs_all(st2.mod(base, "joinpath", "F", *[enc(s) for s in seq]), C15_OBS)
             st2.obs_all(st2.mod(base2, "truediv", enc("/".join(seq))), C15_OBS)
@@ -310,6 +312,10 @@ def c17_oracle(full, io, b):
         exp_shown = None if exp_default else exp_ep
         if (int(shown.group(1)) if shown else None) != exp_shown:
             out.append(fail(v, h, "host_port_subcomponent", f"host_port_subcomponent = {dec(hps)!r}, expected port shown = {exp_shown}", "port-shown"))
+        rh = v.get(h, "raw_host")
+        if rh and rh != "~" and not rh.startswith("!") and ":" in dec(rh) and ("[" + dec(rh) + "]") not in dec(s):
+            out.append(fail(v, h, "str", f"str(url) = {dec(s)!r} writes the IPv6 host {dec(rh)!r} without brackets (port {exp_ep}, scheme default {dflt})", "port-shown"))
+            continue
         m = re.match(r"^[a-z]+://(?:[^@/]*@)?(?:\[[^\]]*\]|[^:/?#]*)(?::(\d+))?", dec(s))
         if m and (int(m.group(1)) if m.group(1) else None) != exp_shown:
             out.append(fail(v, h, "str", f"str(url) = {dec(s)!r}, expected port shown = {exp_shown}", "port-shown"))
